@@ -28,6 +28,9 @@ type Value interface{}
 
 type StructV []Value
 type ArrayV []Value
+
+// ScalarArr is a fixed-size array of scalars (term ids), value semantics.
+type ScalarArr struct{ A *idArr }
 type TupleV []Value
 
 type FreshStr struct{ Name string }
@@ -168,6 +171,8 @@ func copyVal(v Value) Value {
 			n[i] = copyVal(x[i])
 		}
 		return n
+	case ScalarArr:
+		return ScalarArr{A: &idArr{ids: append([]int64(nil), x.A.ids...), sort: x.A.sort}}
 	}
 	return v
 }
@@ -189,6 +194,12 @@ func storeInto(slot *Value, v Value) {
 			for i := range x {
 				storeInto(&cur[i], x[i])
 			}
+			return
+		}
+		*slot = copyVal(x)
+	case ScalarArr:
+		if cur, ok := (*slot).(ScalarArr); ok && len(cur.A.ids) == len(x.A.ids) {
+			copy(cur.A.ids, x.A.ids)
 			return
 		}
 		*slot = copyVal(x)
@@ -281,6 +292,9 @@ func (c *Ctx) zero(T types.Type) Value {
 		}
 		return s
 	case *types.Array:
+		if so, ok := c.sortOf(t.Elem()); ok {
+			return ScalarArr{A: &idArr{ids: make([]int64, t.Len()), sort: so}}
+		}
 		a := make(ArrayV, t.Len())
 		for i := range a {
 			a[i] = c.zero(t.Elem())
